@@ -12,6 +12,7 @@ from vf import ref_sgml
 from vf import ref_types as R
 from vf import universe as U
 from vf import wire
+from vf.core import disturb_class
 from vf.core import vacuous, HarnessError, Tally
 
 LEVEL = "exploration"
@@ -168,6 +169,7 @@ def work(chunk):
     t = Tally()
     for clsname, quick, seed in chunk:
         cls = U.cls_by_name(clsname)
+        disturb_class(cls)
         for c in S.children(cls):
             if c.kind not in ("elem", "lelem"):
                 continue
